@@ -63,7 +63,8 @@ CHECKS = {
         text="Theorems (Props/C09.v) about a Gallina model of get_calibration_indices (searchsorted left/right, per group), "
              "to_linspace, the accessor's validation ladder and attrs, and the per-group gather/scatter of gammastd_grp with "
              "the per-series kernel as a parameter: the index range is exactly {i | begin <= t_i <= end} for every strictly "
-             "increasing axis and every begin/end; ValueError iff the window has < 2 steps; attrs are the first/last step in "
+             "increasing axis and every begin/end, widening the window never drops a step and the cut points stay within 0..n on any axis "
+             "(C09_cal_nested_and_in_range); ValueError iff the window has < 2 steps; attrs are the first/last step in "
              "the window; to_linspace preserves the partition onto 0..k-1; the grouped result decomposes per group, is "
              "invariant under every relabelling of the partition and equals the ungrouped kernel for one group. Tied to "
              "/repo by exact correspondence of indices, re-labelling, raise/attrs, and by running the decomposition / "
